@@ -39,6 +39,7 @@ type c14Pair struct {
 	Msgs     int    `json:"msgs"`      // how many pending board messages the poller handles
 	Reset    bool   `json:"reset"`     // the API request is POST /resetState instead
 	NewRound bool   `json:"new_round"` // the poller's first pending message is the proposal of another round (it creates a new pending operation)
+	Dup      bool   `json:"dup"`       // instead of the poller, a second API request submitting the same result runs concurrently (C15: answered once)
 }
 
 type c14Schedule struct {
@@ -54,6 +55,8 @@ type c14Outcome struct {
 	Touched  [2]map[string]bool
 	Pending  []string
 	Err      string
+	Posted   int
+	APIErrs  [2]string // outcome of the API request(s): [second request (Dup), first request]
 }
 
 // normalKV renders the durable outcome time-free and order-free.
@@ -205,28 +208,39 @@ func c14Execute(tr *ceremonyTrace, rec opRecord, msgs []storage.Message, sc c14S
 			yield("board "+op, "board")
 		}
 	}
-	var aDone, aStarted atomic.Bool
-	var aErr error
-	go func() {
-		aID.Store(goid())
-		<-resume[A]
-		aStarted.Store(true)
+	var aDone, aStarted, p2Done atomic.Bool
+	var aErr, p2Err error
+	apiCall := func() error {
 		switch {
 		case sc.Pair.Reset:
 			nd.BeforeReset()
 			body, _ := json.Marshal(map[string]any{"new_state_dbdsn": filepath.Join(root, "state-after-reset"), "use_offset": false, "messages": []string{}})
-			aErr = nd.Call(http.MethodPost, "/resetState", body).Err()
+			return nd.Call(http.MethodPost, "/resetState", body).Err()
 		case rec.ResultFile == nil:
-			aErr = nd.Approve(rec.OpID)
+			return nd.Approve(rec.OpID)
 		default:
-			aErr = nd.SubmitResult(rec.ResultFile)
+			return nd.SubmitResult(rec.ResultFile)
 		}
+	}
+	go func() {
+		aID.Store(goid())
+		<-resume[A]
+		aStarted.Store(true)
+		aErr = apiCall()
 		aDone.Store(true)
 	}()
+	if sc.Pair.Dup {
+		go func() {
+			pID.Store(goid())
+			<-resume[P]
+			p2Err = apiCall()
+			p2Done.Store(true)
+		}()
+	}
 	nd.Start()
 	synctest.Wait()
 	active.Store(true)
-	pStarted, pDone := false, len(msgs) == 0
+	pStarted, pDone := false, len(msgs) == 0 && !sc.Pair.Dup
 	blocked := [2]bool{} // the actor waits for a lock the other (parked) actor holds
 	// settle waits until the released actor has parked again or finished. If it does neither within a real-time
 	// budget it is waiting for a lock held by the other, parked actor (sync.Mutex waits are invisible to synctest):
@@ -248,7 +262,13 @@ func c14Execute(tr *ceremonyTrace, rec opRecord, msgs []storage.Message, sc c14S
 				blocked[actor] = false
 				return
 			}
-			if actor == P && pStarted && !parked[P].Load() && pollerIdle(nd) {
+			if actor == P && sc.Pair.Dup {
+				if p2Done.Load() {
+					pDone = true
+					blocked[actor] = false
+					return
+				}
+			} else if actor == P && pStarted && !parked[P].Load() && pollerIdle(nd) {
 				// back in the ticker select: the batch is done
 				pDone = true
 				blocked[actor] = false
@@ -282,7 +302,7 @@ func c14Execute(tr *ceremonyTrace, rec opRecord, msgs []storage.Message, sc c14S
 			settle(actor) // it may have proceeded meanwhile
 			return
 		}
-		if actor == P && !pStarted {
+		if actor == P && !pStarted && !sc.Pair.Dup {
 			view.SetWatermark(rec.BoardLen + len(msgs))
 			time.Sleep(world.PollPeriod + time.Millisecond) // the tick; the poller runs to its first state call and parks
 			pStarted = true
@@ -334,11 +354,17 @@ func c14Execute(tr *ceremonyTrace, rec opRecord, msgs []storage.Message, sc c14S
 		o.Err = fmt.Sprintf("poller died: %v", pv)
 		return
 	}
-	_ = aErr // an API error is part of the outcome only through its durable effects
+	if aErr != nil {
+		o.APIErrs[1] = aErr.Error()
+	}
+	if p2Err != nil {
+		o.APIErrs[0] = p2Err.Error()
+	}
 	o.Switches = strings.Join(switches, ",")
 	nd.State.SetHook(nil)
 	view.Hook = nil
 	posted := board.From(rec.BoardLen + len(msgs))
+	o.Posted = len(posted)
 	o.Durable = normalKV(kvSnapshot(nd), posted)
 	ids, _, _ := pendingIDs(nd)
 	o.Pending = ids
